@@ -688,10 +688,40 @@ def _last_def_before(path, node, M):
 CLOSENESS = {"isclose", "allclose"}
 
 
+def _anchor_at_origin(fn, clause):
+    """The pose check rebuilds the expected positions as rotation.apply(pattern.positions) + position of the matched anchor atom: that presupposes that the pattern's
+    own anchor atom (the first axis point) sits at the origin.  The statement that moves it there - pattern.translate(-pattern.positions[<anchor>]) - must be executed on
+    EVERY path that reaches the pose check (dominance on the statement CFG), whatever the size of the pattern."""
+    obs = []
+    trs = []
+    for st in fn.own_nodes():
+        if isinstance(st, ast.Expr) and isinstance(st.value, ast.Call) and isinstance(st.value.func, ast.Attribute) and st.value.func.attr == "translate" and st.value.args \
+                and isinstance(st.value.func.value, ast.Name) and st.value.func.value.id in fn.params:
+            a0 = st.value.args[0]
+            if isinstance(a0, ast.UnaryOp) and isinstance(a0.op, ast.USub) and isinstance(a0.operand, ast.Subscript) and ast.unparse(a0.operand.value) == "%s.positions" % st.value.func.value.id:
+                trs.append(st)
+    checks = [c for c in fn.own_nodes() if isinstance(c, ast.Call) and call_name(c) in ("allclose", "positions_are_unchanged", "isclose")
+              and len([a for a in fn.ancestors(c) if isinstance(a, ast.For)]) >= 2 and any(isinstance(x, ast.Attribute) and x.attr == "positions" for x in ast.walk(expand(fn, c)))]
+    if len(trs) != 1 or not checks:
+        return obs
+    tr = trs[0]
+    for c in checks[:1]:
+        st_c = fn.stmt_of(c)
+        ok = fn.cfg.dominates(tr, st_c)
+        gs = [ast.unparse(t)[:40] for t, pol, k in norm_guards(fn, tr)]
+        obs.append(Ob("A6", clause, fn, tr, ok,
+                      "`%s` (the pattern's anchor atom moved to the origin) %s" % (
+                          ast.unparse(tr)[:60], "is executed on every path to the pose check" if ok else
+                          "is executed only under %s, but the pose check `%s` is reached without it too: for the patterns the guard excludes the expected positions are built from an "
+                          "un-anchored pattern and a genuine copy is rejected (or found only where the anchor happens to sit at the origin)" % (gs, ast.unparse(st_c)[:50])),
+                      slot="anchor-at-origin", positive="robust" if not ok else False))
+    return obs
+
+
 def A6_rotation_gate(repo, clause):
     fn = repo.fn("find_pattern_in_structure")
     cfg = fn.cfg
-    obs = []
+    obs = _anchor_at_origin(fn, clause)
     # the checked copy: X = <pattern copy>.copy() inside the candidate loop, whose positions are rotated with .apply
     chk = None
     for n in fn.own_nodes():
